@@ -1174,4 +1174,144 @@ theorem NnOut.q_flag {b : Buf} {m0 : NnNum} {o lim : Nat} {pf : PFromBody} (hO :
   · intro hn
     rw [e2]; exact nn_all_perr_keep b L m0 hL hn
 
+/-! ### H. more bytes: the invariant survives the extension of the buffer -/
+
+theorem nn_effect_app (b s : Buf) (x : PSpan) (m : NnNum) {o lim : Nat} (hx : NnSpanOk o lim x) (hlim : lim ≤ b.size) :
+    nnEffect (b ++ s) x.ps x.pe x.vs x.ve m = nnEffect b x.ps x.pe x.vs x.ve m := by
+  obtain ⟨_, s2, s3, s4⟩ := hx
+  unfold nnEffect
+  by_cases c1 : x.ps < x.pe ∧ x.vs < x.ve
+  · have hve : x.ve ≤ b.size := by
+      rcases s4 with s4 | s4
+      · have := c1.2; omega
+      · have := s4.2.2; omega
+    rw [if_pos c1, if_pos c1, extract_app b s x.ps x.pe (by omega), extract_app b s x.vs x.ve hve]
+  · rw [if_neg c1, if_neg c1]
+
+theorem nn_all_app (b s : Buf) (L : List PSpan) (m : NnNum) {o lim : Nat} (hL : ∀ x ∈ L, NnSpanOk o lim x)
+    (hlim : lim ≤ b.size) : nnAll (b ++ s) L m = nnAll b L m := by
+  induction L generalizing m with
+  | nil => rfl
+  | cons x L ih =>
+    rw [nn_all_cons, nn_all_cons, nn_effect_app b s x m (hL x List.mem_cons_self) hlim]
+    exact ih _ (fun y hy => hL y (List.mem_cons_of_mem _ hy))
+
+theorem NnInv.app {b : Buf} {m0 : NnNum} {o i : Nat} {pf : PFromBody} (h : NnInv b m0 o i pf) (s : Buf) :
+    NnInv (b ++ s) m0 o i pf := by
+  obtain ⟨h1, h2, h3, h4, h5, L, h6, h7⟩ := h
+  refine ⟨h1, by rw [Array.size_append]; omega, h3, h4, h5, L, ?_, h7⟩
+  rw [nn_all_app b s L m0 h7 h2]; exact h6
+
+/-- **resumed call**: a call that asked for more bytes, followed by a call on the extended buffer from the returned
+    offset with the returned object (and so on: the hypothesis of the second call is the conclusion of the first) -/
+theorem nn_parse_resume (h : Nat) (b s : Buf) (m0 : NnNum) (o offs : Nat) (pf : PFromBody) (hE : NnInv b m0 o offs pf)
+    {o1 : Nat} {pf1 : PFromBody} (hr1 : parseNameAddrPVal h b offs pf = (o1, .moreBytes, pf1))
+    {o' : Nat} {e : Err} {pf' : PFromBody} (hr2 : parseNameAddrPVal h (b ++ s) o1 pf1 = (o', e, pf')) :
+    NnOut (b ++ s) m0 o o' pf' ∧ (e = .moreBytes → NnInv (b ++ s) m0 o o' pf') :=
+  nn_parse h (b ++ s) m0 o o1 pf1 (((nn_parse h b m0 o offs pf hE hr1).2 rfl).app s) hr2
+
+/-! ### I. ParseNameAddrPVal on a new object (any header kind; `parseOneContact` is the Contact instance) -/
+
+/-- **C10 (a), run level, one call on a new object**: whatever the verdict, `HasExpires` is reported only when the
+    consumed text `[offs, o')` contains an `expires` parameter — name `[ps, pe)` matched case-insensitively, non-empty
+    value text `[vs, ve)` after it — and then `Expires` is the decimal value of the leading digits of that text (all of
+    it when the text is a digit string, of ANY length), saturated at 2^32-1; never a wrapped value. -/
+theorem nn_new_expires (h : Nat) (b : Buf) (offs : Nat) (ho : offs ≤ b.size)
+    {o' : Nat} {e : Err} {pf' : PFromBody} (hr : parseNameAddrPVal h b offs {} = (o', e, pf')) :
+    (pf'.hasExpires = false ∧ pf'.expires = 0) ∨
+    (pf'.hasExpires = true ∧ ∃ ps pe vs ve, offs ≤ ps ∧ ps < pe ∧ pe < vs ∧ vs < ve ∧ ve ≤ o' ∧ o' ≤ b.size ∧
+      cmpEqL (b.extract ps pe) sExpires = true ∧
+      pf'.expires = min (decOf (nnDigPre (b.extract vs ve).toList)) 4294967295 ∧
+      (AllDigits (b.extract vs ve).toList → pf'.expires = min (decOf (b.extract vs ve).toList) 4294967295)) :=
+  (nn_parse h b {} offs offs {} (nn_entry_new b offs ho) hr).1.expires rfl
+
+/-- **C10 (b), run level, one call on a new object**: `Q` is 0 (never set) or EXACTLY the value in thousandths of the
+    text of a `q` parameter of the consumed input, the text being of an accepted shape (`NnQOk`) -/
+theorem nn_new_q (h : Nat) (b : Buf) (offs : Nat) (ho : offs ≤ b.size)
+    {o' : Nat} {e : Err} {pf' : PFromBody} (hr : parseNameAddrPVal h b offs {} = (o', e, pf')) :
+    pf'.q = 0 ∨
+    ∃ ps pe vs ve, offs ≤ ps ∧ ps < pe ∧ pe < vs ∧ vs < ve ∧ ve ≤ o' ∧ o' ≤ b.size ∧
+      cmpEqL (b.extract ps pe) sQ = true ∧ NnQOk (b.extract vs ve).toList pf'.q :=
+  (nn_parse h b {} offs offs {} (nn_entry_new b offs ho) hr).1.q
+
+theorem nn_frac_le (fp : List UInt8) (hf : AllDigits fp) (hl : fp.length ≤ 3) : decOf fp * 10 ^ (3 - fp.length) ≤ 999 := by
+  match fp, hf, hl with
+  | [], _, _ => rw [nn_decOf_nil]; simp
+  | [a], hf, _ =>
+    have ha := dval_le a (hf a (by simp))
+    have : decOf [a] = dval a := by unfold decOf; rw [decFrom_cons, decFrom_nil]; omega
+    rw [this]
+    show dval a * 100 ≤ 999
+    omega
+  | [a, c], hf, _ =>
+    have ha := dval_le a (hf a (by simp)); have hc := dval_le c (hf c (by simp))
+    have : decOf [a, c] = dval a * 10 + dval c := by unfold decOf; rw [decFrom_cons, decFrom_cons, decFrom_nil]; omega
+    rw [this]
+    show (dval a * 10 + dval c) * 10 ≤ 999
+    omega
+  | [a, c, d], hf, hl =>
+    have := decOf_le3 [a, c, d] hf hl
+    show decOf [a, c, d] * 1 ≤ 999
+    omega
+
+/-- the accepted shapes never give more than 1000 -/
+theorem nn_qok_le {val : List UInt8} {v : Nat} (h : NnQOk val v) : v ≤ 1000 := by
+  obtain ⟨ip, fp, hi, hf, hl, hu, hone, _, rfl⟩ := h
+  have hd := nn_frac_le fp hf hl
+  unfold qValue
+  rcases Nat.lt_or_ge (decOf ip) 1 with h0 | h1
+  · have : decOf ip = 0 := by omega
+    rw [this]; omega
+  · have h1' : decOf ip = 1 := by omega
+    rw [h1', hone h1']; omega
+
+theorem nn_new_q_le (h : Nat) (b : Buf) (offs : Nat) (ho : offs ≤ b.size)
+    {o' : Nat} {e : Err} {pf' : PFromBody} (hr : parseNameAddrPVal h b offs {} = (o', e, pf')) : pf'.q ≤ 1000 := by
+  rcases nn_new_q h b offs ho hr with h0 | ⟨_, _, _, _, _, _, _, _, _, _, _, hq⟩
+  · rw [h0]; omega
+  · exact nn_qok_le hq
+
+/-! ### J. non-vacuity and tests (closed computations, `decide +kernel`) -/
+
+/-- non-vacuity of `NnQOk`: the text `0.5` is worth 500 thousandths -/
+example : NnQOk [48, 46, 53] 500 := by
+  refine ⟨[48], [53], ?_, ?_, by decide, ?_, ?_, Or.inr rfl, ?_⟩
+  · intro c hc; simp only [List.mem_cons, List.not_mem_nil, or_false] at hc; subst hc; unfold IsDigitB; decide
+  · intro c hc; simp only [List.mem_cons, List.not_mem_nil, or_false] at hc; subst hc; unfold IsDigitB; decide
+  · simp only [decOf, decFrom_cons, decFrom_nil, dval_def]; decide
+  · simp only [decOf, decFrom_cons, decFrom_nil, dval_def]; decide
+  · simp only [qValue, decOf, decFrom_cons, decFrom_nil, dval_def]; decide
+
+/-- test: both parameters, as written -/
+example : (parseOneContact "<sip:a@b>;expires=3600;q=0.5\r\nX".toUTF8.data 0 {}).2.1 = Err.ok ∧
+    (parseOneContact "<sip:a@b>;expires=3600;q=0.5\r\nX".toUTF8.data 0 {}).2.2.hasExpires = true ∧
+    (parseOneContact "<sip:a@b>;expires=3600;q=0.5\r\nX".toUTF8.data 0 {}).2.2.expires = 3600 ∧
+    (parseOneContact "<sip:a@b>;expires=3600;q=0.5\r\nX".toUTF8.data 0 {}).2.2.q = 500 := by decide +kernel
+
+/-- test: saturation of a 23-digit value; upper-case name -/
+example : (parseOneContact "<sip:a@b>;EXPIRES=99999999999999999999999\r\nX".toUTF8.data 0 {}).2.2.expires = 4294967295 := by
+  decide +kernel
+
+/-- test (the reason why `nn_new_expires` speaks of the LEADING DIGITS): `expires=12abc` is accepted, reported as set,
+    worth 12, and nothing is flagged; `expires=abc` is reported as set and worth 0.  (Same in the Go code.) -/
+example : (parseOneContact "<sip:a@b>;expires=12abc\r\nX".toUTF8.data 0 {}).2.1 = Err.ok ∧
+    (parseOneContact "<sip:a@b>;expires=12abc\r\nX".toUTF8.data 0 {}).2.2.hasExpires = true ∧
+    (parseOneContact "<sip:a@b>;expires=12abc\r\nX".toUTF8.data 0 {}).2.2.expires = 12 ∧
+    (parseOneContact "<sip:a@b>;expires=12abc\r\nX".toUTF8.data 0 {}).2.2.paramErr = Err.ok ∧
+    (parseOneContact "<sip:a@b>;expires=abc\r\nX".toUTF8.data 0 {}).2.2.hasExpires = true ∧
+    (parseOneContact "<sip:a@b>;expires=abc\r\nX".toUTF8.data 0 {}).2.2.expires = 0 := by decide +kernel
+
+/-- test (accepted `q` shapes beyond `0[.ddd]` / `1[.000]`): empty integer part, leading zeros -/
+example : (parseOneContact "<sip:a@b>;q=.5\r\nX".toUTF8.data 0 {}).2.2.q = 500 ∧
+    (parseOneContact "<sip:a@b>;q=.5\r\nX".toUTF8.data 0 {}).2.2.paramErr = Err.ok ∧
+    (parseOneContact "<sip:a@b>;q=00000001\r\nX".toUTF8.data 0 {}).2.2.q = 1000 := by decide +kernel
+
+/-- test: rejected `q` texts leave `q` alone and set the parameter error (the verdict stays OK) -/
+example : (parseOneContact "<sip:a@b>;q=1.001\r\nX".toUTF8.data 0 {}).2.2.q = 0 ∧
+    (parseOneContact "<sip:a@b>;q=1.001\r\nX".toUTF8.data 0 {}).2.2.paramErr = Err.valBad ∧
+    (parseOneContact "<sip:a@b>;q=18446744073709551617\r\nX".toUTF8.data 0 {}).2.2.q = 0 ∧
+    (parseOneContact "<sip:a@b>;q=18446744073709551617\r\nX".toUTF8.data 0 {}).2.2.paramErr = Err.valTooLong ∧
+    (parseOneContact "<sip:a@b>;q=0.5;q=abc\r\nX".toUTF8.data 0 {}).2.2.q = 500 ∧
+    (parseOneContact "<sip:a@b>;q=0.5;q=abc\r\nX".toUTF8.data 0 {}).2.2.paramErr = Err.valNotNumber := by decide +kernel
+
 end Sipsp
